@@ -133,12 +133,7 @@ func defaultCleaner(c *Ctx) {
 		}
 		got := P.EdgeCond(fn, body, pred, active.Block(), keepForms(xl))
 		// the true edges together must cover exactly offset > 0; each one must at least imply it
-		implies := true
-		for _, cj := range got {
-			if s, ok := cj[lit(xl, an.SAny).Form]; !ok || s&^lit(xl, an.SPos).Set != 0 {
-				implies = false
-			}
-		}
+		implies, _ := an.ImpliesDNF(got, an.DNF{conj(lit(xl, an.SPos))})
 		q.add("COND", "active := true iff offset > 0", implies, pickS(implies, "set only for positive offsets", "active is set for a non-positive offset: "+got.String()), pred.Instrs[len(pred.Instrs)-1])
 	}
 	// returns
@@ -260,10 +255,8 @@ func cleanupLogic(c *Ctx) {
 	sL := P.Lin(sl.Low)
 	got := P.PathCond(q.fn, nil, sl, keepForms(sL))
 	pos := len(got) > 0
-	for _, cj := range got {
-		if s, ok := cj[lit(sL, an.SAny).Form]; !ok || s&^lit(sL, an.SPos|an.SZero).Set != 0 {
-			pos = false
-		}
+	if pos {
+		pos, _ = an.ImpliesDNF(got, an.DNF{conj(lit(sL, an.SPos|an.SZero))})
 	}
 	q.add("COND", "shift >= 0 at the reslice", pos, pickS(pos, "every path to buffer[s:] established s >= 0", "the reslice is reachable with a negative shift (negative cleaner results must be ignored, not applied): "+got.String()), sl)
 	// upper bound: s <= len(buffer)
@@ -290,12 +283,8 @@ func cleanupLogic(c *Ctx) {
 		if len(g) == 0 {
 			return false
 		}
-		for _, cj := range g {
-			if s, ok := cj[lit(d, an.SAny).Form]; !ok || s&^lit(d, an.SNeg|an.SZero).Set != 0 {
-				return false
-			}
-		}
-		return true
+		okI, _ := an.ImpliesDNF(g, an.DNF{conj(lit(d, an.SNeg|an.SZero))})
+		return okI
 	}
 	clamped := true
 	if ph, ok := sl.Low.(*ssa.Phi); ok {
@@ -322,10 +311,8 @@ func cleanupLogic(c *Ctx) {
 		d := P.Lin(ia.Index).Minus(sL)
 		g := P.PathCond(q.fn, nil, in, keepForms(d))
 		okb := len(g) > 0
-		for _, cj := range g {
-			if s, ok := cj[lit(d, an.SAny).Form]; !ok || s&^lit(d, an.SNeg).Set != 0 {
-				okb = false
-			}
+		if okb {
+			okb, _ = an.ImpliesDNF(g, an.DNF{conj(lit(d, an.SNeg))})
 		}
 		q.add("COND", "only the dropped prefix is nil-ed", okb, pickS(okb, "index < shift on every path to the element store", "an element at or beyond the shift can be nil-ed (a retained value would be destroyed)"), in)
 	}
